@@ -1655,7 +1655,15 @@ class NumberOrderedForm(Operator):
                 continue
 
             # Convert the coefficient to a polynomial and extract the generators
-            poly = sympy.poly(coeff)
+            try:
+                poly = sympy.poly(coeff)
+            except sympy.polys.polyerrors.GeneratorsNeeded:
+                # A factor reduces to a constant, e.g. I * n + I * (1 - n).
+                coeff = sympy.expand(coeff)
+                if not coeff.free_symbols:
+                    new_terms[powers] = coeff
+                    continue
+                poly = sympy.poly(coeff)
             number_gens = tuple(
                 gen for gen in poly.gens if gen in self._number_operator_placeholders
             )
